@@ -765,7 +765,7 @@ func c16Run(c *Ctx) {
 	c.S.Assumptions = []string{"gob output is excluded from the determinism clause (encoding/gob encodes maps in iteration order by design; the property names XML and JSON)", "runtime hash order is replaced by the owned order; a free-running pass on the uninstrumented build is supplementary"}
 	n1, nj, b := 3, 4, 2
 	if c.Thorough {
-		n1, nj, b = 4, 5, 3
+		n1, nj, b = 4, 5, 4
 	}
 	var docs []string
 	for n := 1; n <= n1; n++ {
